@@ -65,7 +65,9 @@ Print Assumptions C08_revoked_stops_refuted.
 
 (* Part A: for every script outside the known class (no disconnect request naming a
    connection between its admission and its registration), every probe of a revoked
-   connection says "not served" and every probe of a registered, never revoked one "served". *)
+   connection says "not served", every probe of a registered, never revoked one "served",
+   and after every disconnect request none of the registered connections it names is
+   observed still served. *)
 Theorem C08_model_satisfies_monitor : forall i,
   C08.known i = 0 -> C08.monitor i (C08.model i) = true.
 Proof. exact A.model_monitor. Qed.
@@ -74,7 +76,7 @@ Print Assumptions C08_model_satisfies_monitor.
 (* The known class is exactly as wide as a witness shows: there the monitor fails. *)
 Theorem C08_known_class_witness :
   C08.known A.witness = 1 /\ C08.monitor A.witness (C08.model A.witness) = false /\
-  C08.model A.witness = Ok [1; 1; 1; 1].
+  C08.model A.witness = Ok [(1, []); (1, []); (1, []); (1, [])].
 Proof. exact A.known_witness. Qed.
 Print Assumptions C08_known_class_witness.
 
@@ -84,3 +86,13 @@ Theorem C08_monitor_is_property : forall s k r,
     (C08.revoked c = true -> r = 0) /\ (C08.revoked c = false -> C08.phase c = 1 -> r = 1).
 Proof. exact A.probe_ok_spec. Qed.
 Print Assumptions C08_monitor_is_property.
+
+(* The monitor on a disconnect request says: no connection that the request names — by its
+   connection id, or, for a request by endpoint id, ANY connection of that endpoint, active
+   or displaced — and that was registered when the request was made is among the connections
+   observed still registered and still served after the deadline. *)
+Theorem C08_monitor_is_property_disconnect : forall s id o still,
+  C08.disc_ok s id o still = true <->
+  forall c, In c s -> C08.matches c id o = true -> C08.phase c = 1 -> ~ In (C08.num c) still.
+Proof. exact A.disc_ok_spec. Qed.
+Print Assumptions C08_monitor_is_property_disconnect.
